@@ -419,6 +419,12 @@ CONTROLS += [
             "    if node.tail and node.tail.strip():\n        raise ValueError(f\"Text between elements is not allowed: {node.tail.strip()!r} after <{node.tag}>\")\n\n"
             "    for k, v in node.attrib.items():", PA)), None,
       'a maintainer repairs two recorded findings (forward is range- and occurrence-checked before the attach; the parser rejects tail text)'),
+    C('silent-upstream-fix-kf19', 'silent', ['C01', 'C11', 'C06', 'C10'],
+      sub("                if node._requirements_fulfilled is None:\n                    node._requirements_fulfilled = True\n            else:\n"
+          "                node._requirements_fulfilled = True\n",
+          "                if node._requirements_fulfilled is None:\n                    node._requirements_fulfilled = True\n"
+          "            elif node._requirements_fulfilled is None:\n                node._requirements_fulfilled = True\n", CC), None,
+      'the flag initialiser only fills flags that are still None (a repair of KF-19): no alarm, and the KNOWN-FINDING line disappears'),
     C('silent-reformat-all-modules', 'silent', ALL_PROPS, reformat_all_modules(), None, 'whole-program re-formatting'),
     C('silent-rename-all-locals-container', 'silent', ALL_PROPS, rename_all_locals(CC), None, 'every local of xmlchildcontainer.py renamed'),
     C('silent-rename-all-locals-parser', 'silent', ['C08', 'C09', 'C17', 'C19'], rename_all_locals(PA), None, 'every local of parser.py renamed'),
